@@ -204,7 +204,7 @@ func c15Run(cfg c15Cfg) (init []byte, ops []c15Op, problem string) {
 		}
 		pair, err = vhStartRS(hs, copts, so...)
 	} else {
-		dir, e := os.MkdirTemp("", "vh-c15-")
+		dir, e := lib.MkScratch("vh-c15-")
 		if e != nil {
 			return nil, nil, e.Error()
 		}
